@@ -303,14 +303,25 @@ def returned_exprs(body):
 
 
 # ------------------------------------------------------------------------------------------ JSON
+def locate_chain(ctx: Ctx, q0, min_arms, param_index=0):
+    """The early-return kind dispatch of q0, or of the private helper it delegates to."""
+    for q in ctx.helper_closure(q0):
+        fi = ctx.fn(q)
+        ps = fi.params[1:] if (fi.cls and not fi.is_static) else fi.params
+        if len(ps) <= param_index:
+            continue
+        subject = ps[param_index]
+        try:
+            arms = early_return_chain(ctx, q, subject)
+        except AnalysisError:
+            raise
+        if len([a for a in arms if a.mode in ("isinstance", "exact")]) >= min_arms - 1 and len(arms) >= min_arms:
+            return q, subject, arms
+    raise AnalysisError("cannot extract the kind dispatch of %s" % q0)
+
+
 def json_writer_chain(ctx: Ctx):
-    q = JS + ".encode_json_representation"
-    fi = ctx.fn(q)
-    subject = fi.params[0]
-    arms = early_return_chain(ctx, q, subject)
-    if len(arms) < 3:
-        raise AnalysisError("cannot extract the kind dispatch of encode_json_representation")
-    return q, subject, arms
+    return locate_chain(ctx, JS + ".encode_json_representation", 3)
 
 
 def json_arm_outcome(ctx: Ctx, q, arm: Arm, subject, k):
@@ -644,12 +655,8 @@ def c02_r3(ctx: Ctx, rule):
       decides="ints, strings, datetimes, URIs and qualified names keep their kind through the RDF literal mapping")
 def c07_r3(ctx: Ctx, rule):
     res = RuleResult()
-    q = RD + ".ProvRDFSerializer.encode_rdf_representation"
+    q, subject, arms = locate_chain(ctx, RD + ".ProvRDFSerializer.encode_rdf_representation", 4)
     fi = ctx.fn(q)
-    subject = fi.params[1]
-    arms = early_return_chain(ctx, q, subject)
-    if len(arms) < 4:
-        raise AnalysisError("cannot extract the kind dispatch of encode_rdf_representation")
     for k in ["str", "int", "float", "datetime", "QualifiedName", "Identifier", "Literal"]:
         arm = arm_for(arms, k)
         rets = returned_exprs(arm.body) if arm else []
@@ -696,13 +703,7 @@ def c07_r3(ctx: Ctx, rule):
 
 # ------------------------------------------------------------------------------------------ PROV-N value kinds
 def provn_value_chain(ctx: Ctx):
-    q = M + ".encoding_provn_value"
-    fi = ctx.fn(q)
-    subject = fi.params[0]
-    arms = early_return_chain(ctx, q, subject)
-    if len(arms) < 3:
-        raise AnalysisError("cannot extract the kind dispatch of encoding_provn_value")
-    return q, subject, arms
+    return locate_chain(ctx, M + ".encoding_provn_value", 3)
 
 
 def provn_arm_datatype(ctx: Ctx, q, arm: Arm):
@@ -753,8 +754,9 @@ def c06_r5(ctx: Ctx, rule):
     # the record printer falls back to encoding_provn_value exactly for values without provn_representation
     rq = M + ".ProvRecord.get_provn"
     rf = ctx.fn(rq)
-    uses_rep = any(call_name(c) == "provn_representation" for c in calls_in(rf.node))
-    uses_enc = any(call_name(c) == "encoding_provn_value" for c in calls_in(rf.node))
+    cl = ctx.helper_closure(rq)
+    uses_rep = any(call_name(c) == "provn_representation" for q2 in cl for c in calls_in(ctx.fn(q2).node))
+    uses_enc = any(call_name(c) == "encoding_provn_value" for q2 in cl for c in calls_in(ctx.fn(q2).node))
     res.ob("ProvRecord.get_provn: provn_representation first (%s), encoding_provn_value as fallback (%s)" % (uses_rep, uses_enc))
     if not (uses_rep and uses_enc):
         res.fail(rule.id, "provn-kind::record-printer-dispatch", ctx.loc(rq, rf.node), "ProvRecord.get_provn no longer dispatches between provn_representation and encoding_provn_value")
